@@ -15,6 +15,8 @@ structure S where
   iReturned : Int := 0
   maxV : Int := 0
   fixed : Bool := true
+  /-- the implementation's entries as last observed -/
+  iPrev : List Entry := []
   deriving Inhabited
 
 def entryJson (e : Entry) : Json := Json.arr #[mkInt e.total, mkInt e.claimed, mkInt e.start, mkInt e.num]
@@ -32,6 +34,20 @@ def remainingB : List Entry → Int
   | [] => 0
   | e :: es => (e.total - e.claimed) + remainingB es
 
+/-- the linear block schedule, stated without the model: ⌊total · min(h − start, num) / num⌋. -/
+def scheduleAt (e : Entry) (h : Int) : Int :=
+  let tb := h - e.start
+  let tb := if tb > e.num then e.num else tb
+  (e.total * tb).tdiv e.num
+
+/-- after a successful claim at height `h` an entry that is still stored has released what the schedule says — or, when a partial
+cancel has shrunk its total below what it had released already, what it had released before. -/
+def offSchedule (prev : List Entry) (h : Int) (e : Entry) : Bool :=
+  if e.num == 0 then false else
+  let sched := scheduleAt e h
+  let before := (prev.filter (fun p => p.total == e.total && p.start == e.start && p.num == e.num)).foldl (fun m p => max m p.claimed) sched
+  e.claimed < sched || e.claimed > before
+
 def errName : Except Err α → String
   | .ok _ => "ok"
   | .error .panicNegCoin => "panic"
@@ -43,7 +59,7 @@ def handle (s : S) (i : Nat) (j : Json) : S × List Json :=
   | some "c14.begin" =>
     match fInt? j "eden", fInt? j "maxv" with
     | some eden, some maxv =>
-      ({ model := init eden, maxV := maxv, fixed := (fBool? j "fixed").getD true }, [verdictOk i])
+      ({ model := init eden, maxV := maxv, fixed := (fBool? j "fixed").getD true, iPrev := [] }, [verdictOk i])
     | _, _ => (s, [verdictBad i "c14.begin fields"])
   | some "c14.op" =>
     let op := (fStr? j "op").getD ""
@@ -85,7 +101,8 @@ def handle (s : S) (i : Nat) (j : Json) : S × List Json :=
         model := mstate
         iReleased := s.iReleased + (if ok && op == "claim" then iPaid else 0)
         iVestedIn := s.iVestedIn + (if ok && op == "vest" then amt else 0)
-        iReturned := s.iReturned + (if ok && op == "cancel" then amt else 0) }
+        iReturned := s.iReturned + (if ok && op == "cancel" then amt else 0)
+        iPrev := iEntries }
       -- correspondence
       let diffs : List Json :=
         (if mres != res then [verdictDiff i "result" mres res] else []) ++
@@ -96,6 +113,8 @@ def handle (s : S) (i : Nat) (j : Json) : S × List Json :=
       let viols : List Json :=
         (if op == "claim" && res != "ok" then [verdictViol i "C14.claim_succeeds" (Json.mkObj [("res", res)])] else []) ++
         (if iPaid < 0 then [verdictViol i "C14.released_mono" (mkInt iPaid)] else []) ++
+        (if op == "claim" && ok && iEntries.any (offSchedule s.iPrev ((fInt? j "h").getD 0)) then
+          [verdictViol i "C14.linear_schedule" (Json.mkObj [("h", mkInt ((fInt? j "h").getD 0)), ("entries", entriesJson iEntries), ("before", entriesJson s.iPrev)])] else []) ++
         (if iEntries.any (fun e => e.claimed < 0 || e.claimed > e.total) then
           [verdictViol i "C14.entry_bounds" (entriesJson iEntries)] else []) ++
         (if s'.iReleased + s'.iReturned + remainingB iEntries != s'.iVestedIn then
